@@ -5,12 +5,14 @@ mod ecrash;
 mod efault;
 mod ehttp;
 mod epayload;
+mod esched;
 mod eseq;
 mod esweep;
 mod http;
 mod model;
 mod pool;
 mod report;
+mod sched;
 mod sut;
 mod vfs;
 mod wrap;
